@@ -73,9 +73,10 @@ def build_harness():
     with Lock("cargo"):
         lock_src = "/repo/Cargo.lock"
         lock_dst = os.path.join(HARNESS, "Cargo.lock")
-        if not os.path.exists(lock_dst):
-            import shutil
-            shutil.copy(lock_src, lock_dst)
+        # always start from /repo's lock file: cargo prunes it to what the harness needs, and an
+        # offline re-resolution from a pruned lock fails on yanked crates
+        import shutil
+        shutil.copy(lock_src, lock_dst)
         p = subprocess.run(["cargo", "build", "--offline"], cwd=HARNESS, env=ENV,
                            stdout=subprocess.PIPE, stderr=subprocess.STDOUT, text=True)
     if p.returncode != 0:
